@@ -3,6 +3,14 @@
 import json, subprocess
 
 CHECKS = {
+ "C04": dict(level="exploration", design="§3 C04",
+   technique="exhaustive enumeration of two-pass provisioning histories over every permitted launch choice and every lifecycle stage, judged by the independent admission oracle",
+   text="Catalogs x NodePool configs x daemonsets x all batches of <=2 preference-free pods: pass 1 is the real Provisioner.Reconcile (batcher, Synced gate, Schedule, CreateNodeClaims); while the created NodeClaims are unlaunched a second Reconcile must list no pods and create nothing. Then for every permitted launch of each NodeClaim (cheapest-first, up to 3 quick / 8 thorough per claim) and every stage (launched, node appeared unregistered with/without hostname and with zero extended resources, registered, initialized) reached through the real lifecycle controller and kubelet events, pass 2 runs with the pods still pending: a pod placed on a NEW NodeClaim must be inadmissible on every in-flight node (launched type's allocatable) together with everything assigned there.",
+   note="Trusted: oracle/admit.go; the provider contract implemented by the harness's choice provider. Final-state form of the oracle (nodes only fill up during a pass, so it cannot false-alarm)."),
+ "C11": dict(level="model_checking", design="§3 C11",
+   technique="deviation-bounded exhaustive exploration of informer delivery histories (deferred, duplicated, reordered deliveries) on the real cluster cache, differential + reference oracle at every quiescent point",
+   text="8 mutation scripts are applied to the API; after each mutation every notified key is delivered to the REAL informer reconcilers at once or deferred, earlier keys may be re-delivered, and the still-unobserved keys are finally delivered in each of 12 orders; all histories with <=2 (quick) / <=3 (thorough) deviations are enumerated. At EVERY point where the latest version of every object has been observed the cache (through exported accessors: per-node pod/daemon cpu, host-port and volume-limit probes, disruption cost, deletion marks; per-pool totals and node counts) must equal two fresh caches fed the same objects in different orders and an independent recomputation from the API objects.",
+   note="Deliveries are atomic (no preemption inside one informer reconcile). One genuine defect is recorded as a known finding (claim-only entry keeps pod aggregates after its Node is deleted)."),
  "C09": dict(level="fault_enumeration", design="§3 C09",
    technique="deviation-bounded exhaustive exploration of termination histories (reconcile orders, environment events, a failure at every API/provider call, restarts) on the real termination, lifecycle and eviction-queue code",
    text="13 termination scenarios are driven for 30 steps through the real node-termination controller, NodeClaim lifecycle controller (finalize path) and eviction queue on an API layer that emulates graceful pod deletion, PDB admission and two-phase instance deletion. All histories with <=1 (quick) / <=2 (thorough) deviations from a fair default cycle are enumerated: any other enabled reconcile or event inserted (clock jumps, node NotReady, instance vanishing, PDB flip, user deleting the Node, controller restart) or a failed API/provider call. At the instant of every finalizer-removing write the oracle checks cordon, remaining drainable pods, blocking volume attachments vs TGP, and the provider's instance table; at the end, no instance outlives its NodeClaim.",
